@@ -80,3 +80,12 @@ Theorem C10_cut_at_frame_boundary :
     exists later, evs = flat_events r ++ later /\ pr_end r = PEnd /\ length (pr_frames r) = length fs1.
 Proof. exact cut_at_frame_boundary. Qed.
 Print Assumptions C10_cut_at_frame_boundary.
+
+(* non-vacuity of the truncation theorem: three frames, three events, a cut inside the third *)
+From PJ.Proofs Require Import NonVacuity.
+Theorem C10_truncation_premises_are_satisfiable :
+  (exists evs, run_frames ([ex_f1; ex_f2] ++ ex_f3 :: []) = Valid evs /\ length evs = 3%nat) /\
+  Forall small [ex_f1; ex_f2] /\ small ex_f3 /\ flat_map f_rows [ex_f1; ex_f2] <> [] /\
+  (0 < 3 < length (write_delimited1 ex_f3))%nat.
+Proof. exact truncation_premises_satisfiable. Qed.
+Print Assumptions C10_truncation_premises_are_satisfiable.
